@@ -5,11 +5,17 @@ import (
 	"golang.org/x/tools/go/ssa"
 )
 
-// Edge is a CFG edge identified by source block and successor index.
+// Edge is a CFG edge identified by source block and successor index. For a
+// block whose branch condition is a phi of that same block (the value form of
+// && / ||, "binop.done"), Pred selects the arrival edge the cut applies to
+// (-1 = any arrival).
 type Edge struct {
 	From *ssa.BasicBlock
 	Succ int // index into From.Succs
+	Pred int // index into From.Preds, or -1
 }
+
+func E(b *ssa.BasicBlock, succ int) Edge { return Edge{b, succ, -1} }
 
 type EdgeSet map[Edge]bool
 
@@ -29,9 +35,8 @@ func instrIndex(in ssa.Instruction) int {
 	return -1
 }
 
-// Before reports whether a precedes b on every path that executes b once a's
-// block is known to dominate: same block & lower index, or a's block strictly
-// dominates b's.
+// Before reports whether a precedes b: same block & lower index, or a's block
+// strictly dominates b's.
 func Before(a, b ssa.Instruction) bool {
 	if a.Block() == b.Block() {
 		return instrIndex(a) < instrIndex(b)
@@ -39,79 +44,190 @@ func Before(a, b ssa.Instruction) bool {
 	return a.Block().Dominates(b.Block())
 }
 
+// phiIf: b ends in `if p` where p is a phi defined in b (short-circuit value form).
+func phiIf(b *ssa.BasicBlock) *ssa.Phi {
+	if len(b.Instrs) == 0 {
+		return nil
+	}
+	iff, ok := b.Instrs[len(b.Instrs)-1].(*ssa.If)
+	if !ok {
+		return nil
+	}
+	c := iff.Cond
+	for {
+		u, ok := c.(*ssa.UnOp)
+		if !ok || u.Op != token.NOT {
+			break
+		}
+		c = u.X
+	}
+	p, ok := c.(*ssa.Phi)
+	if !ok || p.Block() != b {
+		return nil
+	}
+	return p
+}
+
+// phiIfOperand: for arrival via pred index k, the operand that decides the
+// branch and whether the branch polarity is flipped by NOTs.
+func phiIfOperand(b *ssa.BasicBlock, k int) (ssa.Value, bool) {
+	iff := b.Instrs[len(b.Instrs)-1].(*ssa.If)
+	flip := false
+	c := iff.Cond
+	for {
+		u, ok := c.(*ssa.UnOp)
+		if !ok || u.Op != token.NOT {
+			break
+		}
+		c = u.X
+		flip = !flip
+	}
+	return c.(*ssa.Phi).Edges[k], flip
+}
+
+// wnode is a node of the walked graph: a block, plus the arrival edge when the block is a phi-if block.
+type wnode struct {
+	b    *ssa.BasicBlock
+	pred int
+}
+
+func predIndex(from, to *ssa.BasicBlock, succIdx int) int {
+	// the succIdx-th successor of from is `to`; find the matching occurrence in to.Preds
+	occ := 0
+	for i := 0; i < succIdx; i++ {
+		if from.Succs[i] == to {
+			occ++
+		}
+	}
+	for i, p := range to.Preds {
+		if p == from {
+			if occ == 0 {
+				return i
+			}
+			occ--
+		}
+	}
+	return -1
+}
+
+// succs lists the successors of node n that are not cut (and feasible for phi-if blocks).
+func (n wnode) succs(cut EdgeSet) []wnode {
+	var out []wnode
+	b := n.b
+	allowed := [2]bool{true, true}
+	if p := phiIf(b); p != nil && n.pred >= 0 && n.pred < len(p.Edges) {
+		op, flip := phiIfOperand(b, n.pred)
+		if v, ok := ConstBool(op); ok {
+			if flip {
+				v = !v
+			}
+			allowed[0], allowed[1] = v, !v
+		}
+	}
+	for i, s := range b.Succs {
+		if len(b.Succs) == 2 && !allowed[i] {
+			continue
+		}
+		if cut[Edge{b, i, -1}] || (n.pred >= 0 && cut[Edge{b, i, n.pred}]) {
+			continue
+		}
+		np := -1
+		if phiIf(s) != nil {
+			np = predIndex(b, s, i)
+		}
+		out = append(out, wnode{s, np})
+	}
+	return out
+}
+
+// walk explores from the start nodes; visit is called once per node and returns false to stop expanding it.
+func walk(starts []wnode, cut EdgeSet, visit func(n wnode) bool) {
+	seen := map[wnode]bool{}
+	var stack []wnode
+	push := func(n wnode) {
+		if !seen[n] {
+			seen[n] = true
+			stack = append(stack, n)
+		}
+	}
+	for _, s := range starts {
+		push(s)
+	}
+	for len(stack) > 0 {
+		n := stack[len(stack)-1]
+		stack = stack[:len(stack)-1]
+		if !visit(n) {
+			continue
+		}
+		for _, s := range n.succs(cut) {
+			push(s)
+		}
+	}
+}
+
+func entryNodes(b *ssa.BasicBlock) []wnode {
+	if phiIf(b) != nil && len(b.Preds) > 0 {
+		var out []wnode
+		for i := range b.Preds {
+			out = append(out, wnode{b, i})
+		}
+		return out
+	}
+	return []wnode{{b, -1}}
+}
+
+// nodesAfter: start nodes for "just after instruction from" (successors of its block).
+func nodesAfter(from ssa.Instruction, cut EdgeSet) []wnode {
+	var out []wnode
+	for _, n := range entryNodes(from.Block()) {
+		out = append(out, n.succs(cut)...)
+	}
+	return out
+}
+
 // ReachFromEntry reports whether target is reachable from fn's entry when the
 // edges in cut are removed.
 func ReachFromEntry(fn *ssa.Function, target ssa.Instruction, cut EdgeSet) bool {
-	if len(fn.Blocks) == 0 {
-		return false
-	}
-	return reachBlocks([]*ssa.BasicBlock{fn.Blocks[0]}, cut)[target.Block()]
+	return Reach(fn, nil, target, cut, nil)
 }
 
 // ReachFromInstr reports whether target is reachable from just after `from`
 // with cut edges removed.
 func ReachFromInstr(from, target ssa.Instruction, cut EdgeSet) bool {
-	fb := from.Block()
-	if fb == target.Block() && instrIndex(from) < instrIndex(target) {
-		return true
-	}
-	var starts []*ssa.BasicBlock
-	for i, s := range fb.Succs {
-		if !cut[Edge{fb, i}] {
-			starts = append(starts, s)
-		}
-	}
-	return reachBlocks(starts, cut)[target.Block()]
+	return Reach(from.Parent(), from, target, cut, nil)
 }
 
 func reachBlocks(starts []*ssa.BasicBlock, cut EdgeSet) map[*ssa.BasicBlock]bool {
 	seen := map[*ssa.BasicBlock]bool{}
-	var stack []*ssa.BasicBlock
+	var ns []wnode
 	for _, s := range starts {
-		if !seen[s] {
-			seen[s] = true
-			stack = append(stack, s)
-		}
+		ns = append(ns, entryNodes(s)...)
 	}
-	for len(stack) > 0 {
-		b := stack[len(stack)-1]
-		stack = stack[:len(stack)-1]
-		for i, s := range b.Succs {
-			if cut[Edge{b, i}] {
-				continue
-			}
-			if !seen[s] {
-				seen[s] = true
-				stack = append(stack, s)
-			}
-		}
-	}
+	walk(ns, cut, func(n wnode) bool {
+		seen[n.b] = true
+		return true
+	})
 	return seen
 }
 
 // ReachableBlocksFromInstr returns blocks reachable from just after `from`.
 func ReachableBlocksFromInstr(from ssa.Instruction, cut EdgeSet) map[*ssa.BasicBlock]bool {
-	fb := from.Block()
-	var starts []*ssa.BasicBlock
-	for i, s := range fb.Succs {
-		if !cut[Edge{fb, i}] {
-			starts = append(starts, s)
-		}
-	}
-	return reachBlocks(starts, cut)
+	seen := map[*ssa.BasicBlock]bool{}
+	walk(nodesAfter(from, cut), cut, func(n wnode) bool {
+		seen[n.b] = true
+		return true
+	})
+	return seen
 }
 
 // MustPassBetween: every path from `from` to `to` contains (strictly between)
-// one of the `through` instructions. Decided by removing the through
-// instructions' blocks' outgoing continuation: we split reachability in two
-// steps — to is unreachable from `from` when paths are stopped at any through
-// instruction.
+// one of the `through` instructions.
 func MustPassBetween(from ssa.Instruction, to ssa.Instruction, through []ssa.Instruction) bool {
 	thr := map[ssa.Instruction]bool{}
 	for _, t := range through {
 		thr[t] = true
 	}
-	return !reachAvoiding(from, to, thr)
+	return !Reach(from.Parent(), from, to, nil, thr)
 }
 
 // MustPassFromEntry: every path from the function entry to `to` contains one
@@ -121,67 +237,33 @@ func MustPassFromEntry(fn *ssa.Function, to ssa.Instruction, through []ssa.Instr
 	for _, t := range through {
 		thr[t] = true
 	}
-	if len(fn.Blocks) == 0 {
-		return true
-	}
-	return !reachAvoidingFromBlockStart(fn.Blocks[0], to, thr)
+	return !Reach(fn, nil, to, nil, thr)
 }
 
 // reachAvoiding: is `to` reachable from just after `from` without executing
 // any instruction in avoid?
 func reachAvoiding(from, to ssa.Instruction, avoid map[ssa.Instruction]bool) bool {
-	fb := from.Block()
-	idx := instrIndex(from)
-	// scan rest of from's block
-	for _, in := range fb.Instrs[idx+1:] {
-		if in == to {
-			return true
-		}
-		if avoid[in] {
-			return false
-		}
-	}
-	seen := map[*ssa.BasicBlock]bool{}
-	var stack []*ssa.BasicBlock
-	for _, s := range fb.Succs {
-		if !seen[s] {
-			seen[s] = true
-			stack = append(stack, s)
-		}
-	}
-	return scanAvoid(stack, seen, to, avoid)
+	return Reach(from.Parent(), from, to, nil, avoid)
 }
 
 func reachAvoidingFromBlockStart(b *ssa.BasicBlock, to ssa.Instruction, avoid map[ssa.Instruction]bool) bool {
-	seen := map[*ssa.BasicBlock]bool{b: true}
-	return scanAvoid([]*ssa.BasicBlock{b}, seen, to, avoid)
-}
-
-func scanAvoid(stack []*ssa.BasicBlock, seen map[*ssa.BasicBlock]bool, to ssa.Instruction, avoid map[ssa.Instruction]bool) bool {
-	for len(stack) > 0 {
-		b := stack[len(stack)-1]
-		stack = stack[:len(stack)-1]
-		blocked := false
-		for _, in := range b.Instrs {
+	found := false
+	walk(entryNodes(b), nil, func(n wnode) bool {
+		if found {
+			return false
+		}
+		for _, in := range n.b.Instrs {
 			if in == to {
-				return true
+				found = true
+				return false
 			}
 			if avoid[in] {
-				blocked = true
-				break
+				return false
 			}
 		}
-		if blocked {
-			continue
-		}
-		for _, s := range b.Succs {
-			if !seen[s] {
-				seen[s] = true
-				stack = append(stack, s)
-			}
-		}
-	}
-	return false
+		return true
+	})
+	return found
 }
 
 // ExitReachableAvoiding: can some exit instruction in `exits` be reached from
@@ -198,7 +280,8 @@ func ExitReachableAvoiding(from ssa.Instruction, exits []ssa.Instruction, avoid 
 
 // IfEdges returns the edges leaving `If` blocks of fn whose condition is
 // accepted by match; match returns (ok, side) where side==true selects the
-// true successor (Succs[0]).
+// true successor (Succs[0]). For phi-if blocks (value form of && / ||) the
+// condition is matched per arrival edge against the phi operand.
 func IfEdges(fn *ssa.Function, match func(c ssa.Value) (bool, bool)) (EdgeSet, []*ssa.If) {
 	es := EdgeSet{}
 	var ifs []*ssa.If
@@ -210,14 +293,40 @@ func IfEdges(fn *ssa.Function, match func(c ssa.Value) (bool, bool)) (EdgeSet, [
 		if !ok {
 			continue
 		}
+		if p := phiIf(b); p != nil {
+			hit := false
+			for k := range p.Edges {
+				op, flip := phiIfOperand(b, k)
+				if _, isConst := ConstBool(op); isConst {
+					continue
+				}
+				ok, side := match(op)
+				if !ok {
+					continue
+				}
+				if flip {
+					side = !side
+				}
+				hit = true
+				if side {
+					es[Edge{b, 0, k}] = true
+				} else {
+					es[Edge{b, 1, k}] = true
+				}
+			}
+			if hit {
+				ifs = append(ifs, iff)
+			}
+			continue
+		}
 		ok, side := match(iff.Cond)
 		if !ok {
 			continue
 		}
 		if side {
-			es[Edge{b, 0}] = true
+			es[Edge{b, 0, -1}] = true
 		} else {
-			es[Edge{b, 1}] = true
+			es[Edge{b, 1, -1}] = true
 		}
 		ifs = append(ifs, iff)
 	}
@@ -267,62 +376,41 @@ func Exits(fn *ssa.Function) []ssa.Instruction {
 // the function entry when from is nil) without taking a cut edge and without
 // executing an instruction in avoid.
 func Reach(fn *ssa.Function, from ssa.Instruction, target ssa.Instruction, cut EdgeSet, avoid map[ssa.Instruction]bool) bool {
-	seen := map[*ssa.BasicBlock]bool{}
-	var stack []*ssa.BasicBlock
-	push := func(b *ssa.BasicBlock) {
-		if !seen[b] {
-			seen[b] = true
-			stack = append(stack, b)
-		}
-	}
+	var starts []wnode
 	if from == nil {
 		if len(fn.Blocks) == 0 {
 			return false
 		}
-		push(fn.Blocks[0])
+		starts = entryNodes(fn.Blocks[0])
 	} else {
 		fb := from.Block()
-		blocked := false
 		for _, in := range fb.Instrs[instrIndex(from)+1:] {
 			if in == target {
 				return true
 			}
 			if avoid[in] {
-				blocked = true
-				break
+				return false
 			}
 		}
-		if !blocked {
-			for i, s := range fb.Succs {
-				if !cut[Edge{fb, i}] {
-					push(s)
-				}
-			}
-		}
+		starts = nodesAfter(from, cut)
 	}
-	for len(stack) > 0 {
-		b := stack[len(stack)-1]
-		stack = stack[:len(stack)-1]
-		blocked := false
-		for _, in := range b.Instrs {
+	found := false
+	walk(starts, cut, func(n wnode) bool {
+		if found {
+			return false
+		}
+		for _, in := range n.b.Instrs {
 			if in == target {
-				return true
+				found = true
+				return false
 			}
 			if avoid[in] {
-				blocked = true
-				break
+				return false
 			}
 		}
-		if blocked {
-			continue
-		}
-		for i, s := range b.Succs {
-			if !cut[Edge{b, i}] {
-				push(s)
-			}
-		}
-	}
-	return false
+		return true
+	})
+	return found
 }
 
 // GuardOrPass: every path from `from`/entry to target takes an edge
@@ -388,7 +476,7 @@ func CorrelatedCut(fn *ssa.Function, at ssa.Instruction) EdgeSet {
 		}
 		for side := 0; side < 2; side++ {
 			// does edge (b,side) dominate `at`? i.e. at unreachable from entry without it, and reachable with it
-			only := EdgeSet{Edge{b, side}: true}
+			only := EdgeSet{Edge{b, side, -1}: true}
 			if !ReachFromEntry(fn, at, only) && at.Block() != b {
 				facts = append(facts, fact{Canon(iff.Cond), side})
 			}
@@ -400,7 +488,7 @@ func CorrelatedCut(fn *ssa.Function, at ssa.Instruction) EdgeSet {
 			if !ok || Canon(iff.Cond) != f.canon {
 				continue
 			}
-			cut[Edge{b, 1 - f.side}] = true
+			cut[Edge{b, 1 - f.side, -1}] = true
 		}
 	}
 	return cut
